@@ -440,6 +440,113 @@ partial def httpLoop (h : IO.FS.Stream) (s : Srv) (now : Nat) (i : Nat) : IO Uni
         | _ => s'
       httpLoop h s'' now (i+1)
 
+/-! ### serve mode: handler instances and the start-up scan (XsModel/Handler, XsModel/Registry) -/
+section ServeMode
+open Xs.Serve
+
+def sMetaOfJson (j : Json) : Option (List (String × String)) :=
+  match j with
+  | .arr a => some (a.toList.filterMap (fun kv => match kv with
+      | .arr #[.str k, .str v] => some (k, v)
+      | _ => none))
+  | _ => none
+
+def sframeOfJson (j : Json) : SFrame :=
+  { topic := (optStr j "topic").getD "", ctx := hexToNat ((optStr j "ctx").getD "0"),
+    id := hexToNat ((optStr j "id").getD "0"),
+    mdata := match j.getObjVal? "meta" with | .ok m => sMetaOfJson m | _ => none,
+    ttl := (optStr j "ttl").bind ttlOfString,
+    content := optStr j "content" }
+
+def sMetaJ (m : Option (List (String × String))) : Json :=
+  match m with
+  | none => .null
+  | some l => .arr (l.map (fun kv => Json.arr #[.str kv.1, .str kv.2])).toArray
+
+def sframeJ (f : SFrame) : Json :=
+  Json.mkObj [("topic", .str f.topic), ("ctx", .str (idToHex f.ctx)), ("id", .str (idToHex f.id)),
+    ("meta", sMetaJ f.mdata), ("ttl", match f.ttl with | some t => .str (ttlToString t) | none => .null),
+    ("content", optJ f.content)]
+
+/-- the behaviour table a generated nushell closure is rendered from -/
+structure Rule where
+  topic : String            -- "" = any topic
+  appends : List OutReq
+  ret : Ret
+  fail : Bool
+
+def substN (n : Nat) (s : String) : String := s.replace "{n}" (toString n)
+
+def outReqOfJson (j : Json) : OutReq :=
+  { topic := (optStr j "topic").getD "", mdata := match j.getObjVal? "meta" with | .ok m => sMetaOfJson m | _ => none,
+    ttl := (optStr j "ttl").bind ttlOfString, ctxReq := (optStr j "ctx").map hexToNat,
+    content := optStr j "content" }
+
+def ruleOfJson (j : Json) : Rule :=
+  { topic := (optStr j "topic").getD "", appends := (arrOf j "appends").map outReqOfJson,
+    ret := match optStr j "ret" with | some v => .value v | none => .nothing,
+    fail := match j.getObjVal? "fail" with | .ok (.bool b) => b | _ => false }
+
+/-- every call counts (`$env.n = $env.n + 1`); the first matching rule decides -/
+def evalRules (rules : List Rule) (env : Nat) (f : SFrame) : Nat × EvalRes :=
+  let n := env + 1
+  match rules.find? (fun r => r.topic == "" || r.topic == f.topic) with
+  | none => (n, .ok [] .nothing)
+  | some r =>
+    if r.fail then (n, .error "boom")
+    else (n, .ok (r.appends.map (fun o => { o with content := o.content.map (substN n) }))
+      (match r.ret with | .value v => .value (substN n v) | .nothing => .nothing))
+
+def hcfgOfJson (j : Json) : HCfg :=
+  { id := hexToNat ((optStr j "id").getD "0"), ctx := hexToNat ((optStr j "ctx").getD "0"),
+    name := (optStr j "name").getD "", suffix := (optStr j "suffix").getD ".out",
+    ttl := (optStr j "ttl").bind ttlOfString }
+
+def serveStep (j : Json) : Json :=
+  match optStr j "q" with
+  | some "handler" =>
+    let cfg := hcfgOfJson ((j.getObjVal? "cfg").toOption.getD .null)
+    let rules := (arrOf j "rules").map ruleOfJson
+    let env0 := (optNat j "env0").getD 0
+    let hist := (arrOf j "hist").map sframeOfJson
+    let live := (arrOf j "live").map sframeOfJson
+    let resume : Resume := match j.getObjVal? "resume" with
+      | .ok (.str "head") => .head
+      | .ok (.str "tail") => .tail
+      | .ok o => match optStr o "after" with | some h => .after (hexToNat h) | none => .tail
+      | _ => .tail
+    let thr : SFrame := { topic := "xs.threshold", ctx := cfg.ctx, id := 0, ttl := some .ephemeral }
+    let input := subscription cfg resume hist live thr
+    let r := run cfg (evalRules rules) .running env0 input
+    Json.mkObj [("state", .str (match r.1 with | .running => "running" | .stopped => "stopped")),
+      ("env", .num r.2.1), ("outs", .arr (r.2.2.1.map sframeJ).toArray),
+      ("invoked", .arr (r.2.2.2.map (fun p => Json.str (idToHex p.2.id))).toArray)]
+  | some "compact" =>
+    let history := (arrOf j "history").map sframeOfJson
+    let live := (arrOf j "live").map sframeOfJson
+    let invalid := (arrOf j "invalid").filterMap (fun x => match x with | .str s => some (hexToNat s) | _ => none)
+    let ann := announcements (fun r => !invalid.contains r.id) history live
+    Json.mkObj [("announce", .arr (ann.map (fun a => match a with
+      | .registered h => Json.arr #[.str "registered", .str (idToHex h)]
+      | .unregistered h => Json.arr #[.str "unregistered", .str (idToHex h)])).toArray)]
+  | _ => Json.mkObj [("err", .str "bad-q")]
+
+partial def serveLoop (h : IO.FS.Stream) : IO Unit := do
+  let line ← h.getLine
+  if line.isEmpty then return ()
+  if line.trimAscii.toString.isEmpty then serveLoop h else
+  match Json.parse line with
+  | .error e =>
+    IO.println (Json.mkObj [("err", .str ("parse:" ++ e))]).compress
+    (← IO.getStdout).flush
+    serveLoop h
+  | .ok j =>
+    IO.println (serveStep j).compress
+    (← IO.getStdout).flush
+    serveLoop h
+
+end ServeMode
+
 def main (args : List String) : IO UInt32 := do
   let stdin ← IO.getStdin
   match args with
@@ -447,4 +554,5 @@ def main (args : List String) : IO UInt32 := do
   | ["follow"] => followLoop stdin {} 0; return 0
   | ["wire"] => wireLoop stdin; return 0
   | ["http"] => httpLoop stdin {} 0 0; return 0
+  | ["serve"] => serveLoop stdin; return 0
   | _ => IO.eprintln "usage: xsdrv store"; return 2
